@@ -77,6 +77,14 @@ def csiFields (params : List (List Int)) (fin : Int) : Key :=
 def csiDenotes (u : Uni) (params : List (List Int)) (fin : Int) : Key :=
   shiftFix u (csiFields params fin)
 
+/-- What `CSI params final` is read through: the first three parameters, the rune-typed fields (key
+    codes and text code points) modulo 2^32. -/
+def csiNormal : List (List Int) → List (List Int)
+  | [] => []
+  | [p0] => [p0.map wrap32]
+  | [p0, p1] => [p0.map wrap32, p1]
+  | p0 :: p1 :: p2 :: _ => [p0.map wrap32, p1, p2.map wrap32]
+
 /-! ## Character keys of any script under the legacy protocol -/
 
 /-- The legacy report of the character key `c` (un-shifted character; `C` = the character Shift
